@@ -64,8 +64,11 @@ def gen_sig(rng):
     defaults = positional[len(positional) - ndef:] + [k for k in kwonly if rng.random() < 0.5]
     everything = positional + ([varpos] if varpos else []) + kwonly + ([varkw] if varkw else [])
     annotated = [p for p in everything if rng.random() < 0.65]
+    # parameters annotated by a hint that admits everything (object, Any, Optional[object]): nothing to check for them, and the
+    # parameters after them are still theirs (in the model they count as unannotated)
+    ignorable = [[p, rng.choice(['object', 'Any', 'Optional[object]'])] for p in everything if p not in annotated and rng.random() < 0.35]
     return {'posonly': posonly, 'flex': flex, 'varpos': varpos, 'kwonly': kwonly, 'varkw': varkw,
-            'defaults': defaults, 'annotated': annotated, 'annotate_return': rng.random() < 0.5}
+            'defaults': defaults, 'annotated': annotated, 'ignorable': ignorable, 'annotate_return': rng.random() < 0.5}
 
 
 def gen_call(rng, sig, counter):
@@ -139,7 +142,7 @@ def judge(call, oc):
 
 def run(ctx):
     ctx.rule = ('random signatures (0-2 positional-only, 0-2 flexible, optional *args, 0-2 keyword-only, optional '
-                '**kwargs, trailing defaults, random annotated subset, optional return annotation) x 12 call shapes '
+                '**kwargs, trailing defaults, random annotated subset, a further random subset annotated by ignorable hints (object / Any / Optional[object]), optional return annotation) x 12 call shapes '
                 '(exact, flexible by keyword, missing, surplus, duplicate, keyword naming a positional-only '
                 'parameter with/without **kwargs, unknown keywords, mixed; 25% with one value designated to fail, 15% '
                 'with the original raising an exception object of its own); '
